@@ -207,6 +207,35 @@ CHECKS = {
         note=COMMON_NOTE + " The candidate set is the brute-force specification of FileSet.find (C01), name parsing is C02's, exclusion periods C03's; Python re/glob/datetime exercised, not proved.",
         technique="Coq proof of a certified relational checker (closest_ok <-> ClosestSpec) and of the algorithm model against the brute-force specification + differential execution judged inside Coq (vm_compute)",
         design="5/C16"),
+    "C01": dict(
+        text=("Theorems (closed under the global context): the search algorithm of FileSet.find (end - 1 us, directory pruning with "
+              "one-period look-back, truncation to the resolution of all levels parsed so far, year-only fallback, closed overlap, "
+              "exclusion through the C03 interval tree, white/black lists, stable sort, count and time bundles, `in`, len, "
+              "single-file filesets) is modelled in Gallina and proved equal to sort-after-filter for every layout without "
+              "placeholder gaps, every population of valid files placed in the directory of their start time and no longer than one "
+              "period of the finest level, and every well-formed period (find_sound_complete: Sorted, Permutation of the filter, "
+              "equal to find_spec); find_each_once, semi_open, exclusion_exact, layout_independent, contains_agrees, len_agrees, "
+              "both bundle partitions and the single-file cases are further theorems; the pre-fix algorithm is refuted in Coq "
+              "(find_asis_refuted). Tie: the real FileSet on generated directory trees written with the harness's own renderer "
+              "(130 quick / 1670 thorough incl. fsspec zip), compared with the specification inside the hypotheses (a mismatch is a "
+              "failing input) and with the algorithmic model outside them. Not stated: stability of the sort among equal keys."),
+        note=COMMON_NOTE + " Python re/glob/fsspec listing, pandas Grouper bin edges for string bundles and name parsing (C02, cross-checked per found file) are trusted.",
+        technique="Coq refinement proof (algorithmic model = brute-force specification; monotonicity of calendar truncation) + differential execution on harness-rendered trees evaluated by vm_compute",
+        design="5/C01"),
+    "C17": dict(
+        text=("coq/gen/oem.v (mathcomp matrix terms) is REGENERATED from typhon/retrieval/oem on every run; 13 theorems, closed under the "
+              "global context, for every ordered field, every shape and every SPD pair S_a, S_y (invertibility derived from SPD, "
+              "not assumed): error_covariance_matrix is the two-sided inverse of K^T S_y^-1 K + S_a^-1, is SPD and <= S_a in the "
+              "Loewner order (Woodbury form); the gain equals S K^T S_y^-1 and the measurement-space form S_a K^T (K S_a K^T + "
+              "S_y)^-1; A = G K = I - S S_a^-1; smoothing_error and retrieval_noise are the stated linear maps. PARTIAL (named): "
+              "eigenvalues of A are proved in [0,1) only for eigenvalues lying in the field (no spectral theorem installed; the "
+              "complex spectrum is swept numerically), and the two limits (vanishing prior / noise) are proved as bounds linear in "
+              "the scaling factor without the final passage to the limit. Tie: translation + exact-rational evaluation of the same "
+              "source expressions inside Coq (inverse certified per call) against the running code + a numeric law sweep with "
+              "componentwise conditioning-scaled tolerances."),
+        note=COMMON_NOTE + " Translator trusted (cross-checked by the exact evaluation); numpy/scipy matmul/inv up to rounding bridged case by case by first-order error bounds; the Q-matrix model is a second reading of the source, not proved equal to the mathcomp terms.",
+        technique="Coq/mathcomp proof over an arbitrary ordered field on matrix terms translated from the source on every run + exact-rational vm_compute evaluation + numeric law sweep",
+        design="5/C17"),
 }
 
 
